@@ -26,6 +26,7 @@ def run_both(ctx, which):
     n = ctx.pick(260, 4000)
     P = semcheck.gen_programs(ctx.seed * 7919 + 91, n, "strat", max_worlds=200)
     P += common.family_small(ctx.pick(160, 2500), ctx.seed + 9000)
+    P += common.cyclic_family(ctx.pick(500, 6000), ctx.seed + 9100, evidence=0.4)
     jobs = [("pipeline_dump", {"text": progs.render(p), "with_nnf": which == "C10"}) for p in P]
     res = pl.run_jobs(jobs, nproc=ctx.nproc, timeout=60)
     cases = []
